@@ -20,6 +20,10 @@ var recvMeths = []string{"read", "read", "rprod", "rcheck", "ok", "force", "drop
 func record(n int, seed int64) {
 	rng := rand.New(rand.NewSource(seed))
 	for i := 0; i < n; i++ {
+		if inconclusiveSeen >= maxInconclusive/2 {
+			rt.Emit(map[string]any{"inconclusive": "skipped: too many runs without a quiescent point"})
+			continue
+		}
 		runtime.GOMAXPROCS(1 + rng.Intn(8))
 		cap := rng.Intn(4)
 		isnil := rng.Intn(12) == 0
@@ -141,7 +145,7 @@ func record(n int, seed int64) {
 		}
 		close(start)
 		quiet := func() bool {
-			if _, err := rt.Quiesce(); err != nil {
+			if _, err := quiesce(); err != nil {
 				return false
 			}
 			pend := map[string]bool{}
@@ -201,6 +205,7 @@ func record(n int, seed int64) {
 		if ok {
 			rt.Emit(map[string]any{"hist": append(hist, rec.Events()...)})
 		} else {
+			inconclusiveSeen++
 			rt.Emit(map[string]any{"inconclusive": "no quiescence"})
 		}
 	}
